@@ -3,6 +3,7 @@ package govc
 import (
 	"fmt"
 	"go/types"
+	"hash/fnv"
 	"os"
 	"sort"
 	"strings"
@@ -25,6 +26,7 @@ type Engine struct {
 	layouts  map[string][]Leaf
 	tags     map[string]int
 	tagTypes []types.Type
+	tagByID  map[int]types.Type
 	fnIDs    map[*ssa.Function]int
 	globIDs  map[*ssa.Global]int
 	funcsByKey map[string]*ssa.Function
@@ -50,7 +52,7 @@ func Load(repoDir string, overlay map[string][]byte, patterns ...string) (*Engin
 	}
 	e := &Engine{RepoDir: repoDir, Pkgs: pkgs, SSAPkgs: map[string]*ssa.Package{}, TypPkgs: map[string]*types.Package{},
 		layouts: map[string][]Leaf{}, tags: map[string]int{}, fnIDs: map[*ssa.Function]int{}, globIDs: map[*ssa.Global]int{},
-		funcsByKey: map[string]*ssa.Function{}, Overlay: overlay}
+		funcsByKey: map[string]*ssa.Function{}, Overlay: overlay, tagByID: map[int]types.Type{}}
 	packages.Visit(pkgs, nil, func(p *packages.Package) {
 		for _, er := range p.Errors {
 			if strings.HasPrefix(p.PkgPath, ModPath) {
@@ -111,16 +113,26 @@ func (e *Engine) LoadContracts(libDir string) error {
 
 func (e *Engine) FuncByKey(key string) *ssa.Function { return e.funcsByKey[key] }
 
+// tagOf interns the dynamic-type tag of t. Tags are derived from a hash of the type's name, not from
+// the order in which types are met: the constants in a query must not depend on which other
+// functions were translated before (solver behaviour on quantified goals is sensitive to them).
 func (e *Engine) tagOf(t types.Type) int {
 	k := e.typeKey(t)
 	if id, ok := e.tags[k]; ok {
 		return id
 	}
-	id := len(e.tagTypes)
+	h := fnv.New32a()
+	h.Write([]byte(k))
+	id := int(h.Sum32()%900000) + 1000
+	for e.tagByID[id] != nil {
+		id++ // collision: next free slot (deterministic given the same set of types is rare enough; the map keeps it sound)
+	}
 	e.tags[k] = id
-	e.tagTypes = append(e.tagTypes, t)
+	e.tagByID[id] = t
 	return id
 }
+
+func (e *Engine) typeOfTag(id int) types.Type { return e.tagByID[id] }
 
 func (e *Engine) fnID(f *ssa.Function) int {
 	if id, ok := e.fnIDs[f]; ok {
